@@ -302,7 +302,7 @@ fn program(c: &Case) -> String {
 pub fn run(ctx: &Ctx, rep: &mut Report) {
     let thorough = ctx.tier.is_thorough();
     rep.rule = "terminal state = (trait list x struct/enum shape incl. empty and single-variant enums x generics option [type/const/lifetime parameters, inline bounds, defaults, where-clauses incl. `Self`, hostile names H and 'a, ?Sized tail] x field type over the parameters x entry point) | (comparison list x shape x attribute flavour [by closure / by path / key / ignore / reverse] x position first/middle/last x generic field type) | fixed Debug/Default flavours; cases whose in-process expansion contains a compile_error! are set aside; the rest is compiled metadata-only with warnings on; distinct by program text; non-trivial = accepted by the expander and generic or attributed".into();
-    rep.assumptions = vec!["user-written pieces are well-typed by construction: field types either mention a type/const parameter (then covered by the generated bound) or implement every derived trait; closures / paths / keys are well-typed under the explicit bound(..) given".into(), "a diagnostic counts iff one of its spans lies inside the output of derive_ex / derive(Ex) (JSON expansion info)".into()];
+    rep.assumptions = vec!["user-written pieces are well-typed by construction: field types either mention a type/const parameter (then covered by the generated bound) or implement every derived trait; closures / paths / keys are well-typed under the explicit bound(..) given".into(), "every error and every warning attributed to an accepted case counts (the scaffolding is warning-free by construction; unused imports are allowed crate-wide)".into()];
     let mut cases: Vec<Case> = Vec::new();
     let gens: [(&str, fn(&mut Ch, bool) -> Option<Case>); 3] = [("struct", gen_struct), ("attrs", gen_attrs), ("misc", gen_misc)];
     if let Some(p) = &ctx.replay {
@@ -354,8 +354,28 @@ pub fn run(ctx: &Ctx, rep: &mut Report) {
     }
     let rcases: Vec<runner::Case> = idx.iter().map(|&i| runner::Case { code: borrowed_programs.get(&i).cloned().unwrap_or_else(|| program(&cases[i])) }).collect();
     let mut opts = runner::Opts::check("c20");
-    opts.crate_attrs = "#![allow(unused_imports)]".into();
+    opts.crate_attrs = "#![allow(unused_imports, dead_code)]".into();
     let res = runner::run_cases(&rcases, &opts);
+    // warnings that the standard derive draws as well for the same definition are exempt: compile the std twin of
+    // every own-grammar case that drew warnings only (and derives only std-derivable traits without helper attributes)
+    let std_traits = ["Clone", "Copy", "Debug", "Default", "PartialEq", "Eq", "PartialOrd", "Ord", "Hash"];
+    let mut twin_of: std::collections::BTreeMap<usize, usize> = std::collections::BTreeMap::new();
+    let mut twins: Vec<runner::Case> = Vec::new();
+    for (k, &i) in idx.iter().enumerate() {
+        let c = &cases[i];
+        let r = &res[k];
+        let own_grammar = !c.gen.ends_with("-generators");
+        if own_grammar && r.compiled() && r.diags.iter().any(|d| d.level == "warning") && c.list.iter().all(|t| std_traits.contains(&t.as_str())) && !c.item.replace("#[default] ", "").contains("#[") {
+            twin_of.insert(i, twins.len());
+            // two twins: the full list, and the list without Default (which the std derive cannot provide for
+            // every field type, e.g. fn pointers); lints of both are taken
+            for (l, item) in [(c.list.clone(), c.item.clone()), (c.list.iter().filter(|t| *t != "Default").cloned().collect::<Vec<_>>(), c.item.replace("#[default] ", ""))] {
+                twins.push(runner::Case { code: format!("pub trait Tr {{ type Assoc; fn mk() -> Self; }}\npub trait Marker {{}}\n#[derive({})]\n{}\n", l.join(", "), item) });
+            }
+        }
+    }
+    let twin_res = if twins.is_empty() { Vec::new() } else { runner::run_cases(&twins, &opts) };
+    rep.set("std_twins_compiled_for_warning_comparison", json!(twins.len()));
     for (k, &i) in idx.iter().enumerate() {
         let c = &cases[i];
         let r = &res[k];
@@ -365,7 +385,18 @@ pub fn run(ctx: &Ctx, rep: &mut Report) {
         // errors: every error of the case counts (the user-written pieces are well-typed by construction and
         // embedded expressions keep their own spans inside the generated impl); warnings: only those whose span
         // lies in derive_ex's output
-        let bad: Vec<&runner::Diag> = r.diags.iter().filter(|d| d.in_macro || d.level == "error").collect();
+        // (a warning about an identifier that only exists in derive_ex's output can carry a user span - e.g. the
+        // helper fn names derived from field names - so every warning attributed to the case counts; the program
+        // text outside the derive is warning-free by construction, unused imports are allowed crate-wide)
+        // (programs borrowed from the C01 / C06 generators are not written to be warning-free: there only
+        // warnings located in the macro output count)
+        let own_grammar = !c.gen.ends_with("-generators");
+        let twin_lints: Vec<String> = twin_of.get(&i).map(|&t| twin_res[t].diags.iter().chain(twin_res[t + 1].diags.iter()).filter(|d| d.level == "warning").map(|d| d.code.clone()).collect()).unwrap_or_default();
+        let exempt = |d: &runner::Diag| d.level == "warning" && twin_lints.contains(&d.code);
+        for d in r.diags.iter().filter(|d| exempt(d)) {
+            rep.outcome(&format!("warning-also-drawn-by-std-derive:{}", d.code));
+        }
+        let bad: Vec<&runner::Diag> = r.diags.iter().filter(|d| !exempt(d) && (d.in_macro || d.level == "error" || (own_grammar && d.level == "warning"))).collect();
         let other: Vec<&runner::Diag> = Vec::new();
         if bad.is_empty() {
             if other.is_empty() {
